@@ -1,10 +1,10 @@
 SPECIFICATION GenSpec
 CONSTANTS
   Opens <- AlphaSet
-  Forms = {"plain", "amp", "num"}
-  Alpha = "q4"
-  MaxLen = 4
-  MaxDepth = 5
+  Forms = {"plain"}
+  Alpha = "q5"
+  MaxLen = 7
+  MaxDepth = 6
 INVARIANTS Lattice WellNested ContentModelOK DocOrder RefOK
 CONSTRAINT Emit
 CHECK_DEADLOCK FALSE
